@@ -6,6 +6,8 @@ import sys
 
 pid = sys.argv[1]
 n = int(sys.argv[2]) if len(sys.argv) > 2 else 2
+start = int(sys.argv[3]) if len(sys.argv) > 3 else 1
+ks = list(range(start, start + n))
 p = next(json.loads(l) for l in open('/verif/properties.jsonl') if json.loads(l)['id'] == pid)
 wt = f"/tmp/wt_{pid}"
 print(f"""You are helping to test a verification effort by writing realistic *bug-introducing* changes (mutants) for a Python library.
@@ -29,9 +31,9 @@ Keep each patch small (a few lines). The changes must be to files under `flamapy
 For each change also write a demonstration: a small stand-alone Python script that exits 0 and prints PASS when the property holds for its input and exits 1 printing FAIL when it does not. It must PASS on the unmodified worktree and FAIL with the patch applied. Build inputs through the public constructors (Feature, Relation, FeatureModel, Constraint, AST/Node, Attribute, Domain, Range) or by writing small files and reading them with the library's readers, whichever the property needs.
 
 Deliverables — write them into `{wt}/mutants/` (create it):
-  - `m1.diff`, `m2.diff`, ... : output of `git diff` for each change alone (relative to HEAD, so that `git apply m1.diff` works on a clean checkout);
-  - `m1_demo.py`, `m2_demo.py`, ... : the demonstrations;
-  - `m1.json`, ... : {{"property": "{pid}", "summary": "...what was changed...", "needs": "...what specific condition is needed for the breakage to manifest...", "checked": "...commands you ran and what they printed..."}}
+  - {', '.join(f'`m{k}.diff`' for k in ks)} : output of `git diff` for each change alone (relative to HEAD, so that `git apply m1.diff` works on a clean checkout);
+  - {', '.join(f'`m{k}_demo.py`' for k in ks)} : the demonstrations;
+  - {', '.join(f'`m{k}.json`' for k in ks)} : {{"property": "{pid}", "summary": "...what was changed...", "needs": "...what specific condition is needed for the breakage to manifest...", "checked": "...commands you ran and what they printed..."}}
 Before finishing, for every mutant: start from a clean tree (`git checkout -- . && git status --short` shows only mutants/), run the demo (must PASS), `git apply mutants/mK.diff`, run the 144 tests (must all pass), run the demo (must FAIL), then `git checkout -- flamapy` to restore. Leave the worktree clean (apart from `mutants/`) at the end.
 
-IMPORTANT: before designing a mutant, read the relevant code and actually check, with a quick experiment, that the unmodified library satisfies the property on your demonstration input; the library has some pre-existing defects, so pick inputs where the current behaviour is right. Report at the end a short list: for each mutant, one line with the file changed, the idea, and the confirmed PASS→FAIL result.""")
+{'This is a SECOND round: simple slips in the most obvious function (a flipped comparison, a dropped element, a missing quote) have been tried already. Look for the less obvious places: helper functions, rarely taken branches, interactions between two functions or two calls, state kept between calls, behaviour that depends on ordering, letter case, numeric width (multi-digit numbers), empty / single-element collections, or on Python data-model methods (__eq__, __hash__, __lt__, __str__). ' if start > 1 else ''}IMPORTANT: before designing a mutant, read the relevant code and actually check, with a quick experiment, that the unmodified library satisfies the property on your demonstration input; the library has some pre-existing defects, so pick inputs where the current behaviour is right. Report at the end a short list: for each mutant, one line with the file changed, the idea, and the confirmed PASS→FAIL result.""")
